@@ -26,13 +26,22 @@ def _parse(path):
     return _cache[path]
 
 
-def _find(tree, qual):
+def _start(n):
+    return min([n.lineno] + [d.lineno for d in getattr(n, "decorator_list", [])])
+
+
+def _find(tree, qual, firstlineno=None):
     node = tree
-    for part in qual.split("."):
+    parts = qual.split(".")
+    for i, part in enumerate(parts):
         nxt = [n for n in node.body if isinstance(n, (ast.FunctionDef, ast.ClassDef)) and n.name == part]
         if not nxt:
             return None
-        node = nxt[-1]          # a later definition shadows an earlier one
+        if i == len(parts) - 1 and firstlineno is not None:
+            exact = [n for n in nxt if _start(n) == firstlineno]
+            if exact:
+                nxt = exact
+        node = nxt[-1]          # a later definition shadows an earlier one (property getter/setter pairs: matched by line)
     return node if isinstance(node, ast.FunctionDef) else None
 
 
@@ -54,8 +63,8 @@ def load_function(repo, func):
         raise LookupError("no source for %r" % (func,))
     src, tree = _parse(path)
     qual = func.__qualname__
-    node = _find(tree, qual)
-    if node is None or node.lineno > func.__code__.co_firstlineno:
+    node = _find(tree, qual, func.__code__.co_firstlineno)
+    if node is None:
         # decorated or nested: search by line number
         for n in ast.walk(tree):
             if isinstance(n, ast.FunctionDef) and n.name == func.__name__ and n.lineno <= func.__code__.co_firstlineno <= n.end_lineno:
